@@ -7,7 +7,7 @@ from sqv import core, hyp
 from sqv.core import Failure, Stats
 from sqv.gen import typed
 from sqv.monitor import Monitor
-from sqv.spec import refsem, unparse
+from sqv.spec import reflex, refparse, refsem, unparse
 from sqv.spec.neutral import neutral
 from sqv.values import canon, data_names
 
@@ -15,7 +15,7 @@ ID = 'C07'
 LEVEL = 'exploration'
 RULE = ('Hypothesis type-directed programs (1-6 statements, nesting <= 4, host-supplied names of every type) over every '
         'operator, statement form, slice form and deterministic builtin, rendered fully parenthesised; the reference '
-        'interpreter (sqv/spec/refsem.py) runs on the tree the implementation parsed; compared: outcome class '
+        'interpreter (sqv/spec/refsem.py) runs on the tree the frozen reference parser derives from the text; compared: outcome class '
         '(value / ParserError / other Exception), canonical value (type class + exact Decimal representation), host '
         'names afterwards (also after a failure), and charges == node entries == reference node evaluations. '
         'Non-trivial: >= 3 distinct operator/builtin/form labels and at least one container or lambda; distinct by '
@@ -44,10 +44,11 @@ def run_source(src, env):
     from smartquery import ParserError
     p = parser()
     case = {'src': src, 'env': core.enc(env)}
+    # the program is its text: the reference interpreter runs on the tree the frozen reference parser derives from it
     try:
-        tree = neutral(p.parse(src))
-    except Exception as e:  # noqa  a rendering the parser rejects is C06's business
-        return [], {'discard': 'parse:' + type(e).__name__}
+        tree = refparse.parse([(t.kind, t.value) for t in reflex.lex(src)])
+    except (refparse.Rej, reflex.LexError) as e:
+        raise core.HarnessError(f'generated program is not a sentence of the reference grammar: {src!r} ({e})')
     renv = copy.deepcopy(env)
     out, interp = refsem.run(tree, renv, max_ops=BUDGET)
     if out[0] == 'unspec':
